@@ -66,12 +66,14 @@ let spec input obs_s =
     let prev_state = ref o.init_state in
     let prev_tip = ref (if is_x then (match Store.tipB s0 with Some t -> int_of_n t.Store.id | None -> -2) else tip_of o.init_state) in
     let caveat = ref false in
+    let svc_dropped = ref false in       (* the service disconnected some peer *)
     let asked = Hashtbl.create 8 in      (* peers that were sent a getheaders at some point *)
     let known = Hashtbl.create 64 in
     Stdlib.List.iter (fun i -> Hashtbl.replace known i ()) sc.init;
     let filtered_inv = ref None in
     Stdlib.List.iter (fun step -> Stdlib.List.iter (fun (e : obs_event) ->
         if Stdlib.List.mem "P" e.effs then fail "panic" e.label;
+        if Stdlib.List.exists (fun eff -> String.length eff >= 2 && eff.[0] = 'X') e.effs then svc_dropped := true;
         Stdlib.List.iter (fun eff -> match parse_g eff with Some (q, _, _) -> Hashtbl.replace asked q () | None -> ()) e.effs;
         let t = tip_of e.state in
         (match Hashtbl.find_opt cum_of !prev_tip, Hashtbl.find_opt cum_of t with
@@ -100,7 +102,7 @@ let spec input obs_s =
         let sync_lags = (try let n = Stdlib.List.assoc final_sync ns in
                            Z.lt (zt_of_z (SyncSpec.chain_cum gw (Stdlib.List.map (src_of u) n.chain))) best with Not_found -> false) in
         let detail = Printf.sprintf "tip=%d best-offer-work=%s" o.tip (Z.format "%x" best) in
-        if (not is_x) && sc.dis then fail "checkpoints-disabled-peer-disconnected" detail
+        if (not is_x) && sc.dis && !svc_dropped then fail "checkpoints-disabled-peer-disconnected" detail
         else if (match !filtered_inv with Some i -> not (stored i) | None -> false) then fail "sync-peer-announcement-ignored" detail
         else if sync_lags && not (Stdlib.List.exists (fun (q, n) ->
             Hashtbl.mem asked q && Z.equal (zt_of_z (SyncSpec.chain_cum gw (Stdlib.List.map (src_of u) n.chain))) best) reachable)
